@@ -71,6 +71,14 @@ Theorem c19_counters_sum : forall c st h,
 Proof. exact counters_sum. Qed.
 Print Assumptions c19_counters_sum.
 
+(* ... and, at every observation point, the multi counters are the sums of the members' OWN
+   counters (whatever those count: bytes from before the member joined, framing overhead, traffic
+   through AsUnreliable) - not a tally kept by the multi transport of the payloads it passed on. *)
+Theorem c19_counters_are_member_sums : forall st,
+  snd (mstep st Counters) = OCounters (sum_rx (s_members st)) (sum_tx (s_members st)).
+Proof. reflexivity. Qed.
+Print Assumptions c19_counters_are_member_sums.
+
 (* Unknown ids are harmless.  (a) a configuration whose initial id is not a member (or whose
    map is empty) is rejected; (b) a scheduler emission that is not a member id leaves the state
    untouched; (c) from an accepted configuration no history whatsoever makes any Write,
